@@ -537,6 +537,16 @@ def step_regen(s, op, checks, case):
         "old_retval": s.tr.get_retval(),
         "nselected": sum(1 for p in s.run.visited if selected(term, p)),
     }
+    if "regen_redrawn" in checks:
+        cont = ("normal", "laplace", "exponential", "beta", "uniform")
+        same = [p for p in s.run.visited if selected(term, p) and p in run2.dist_info and s.run.dist_info[p][0] in cont
+                and p in s.asg and p in run2.assignment() and np.asarray(run2.assignment()[p]).tobytes() == np.asarray(s.asg[p]).tobytes()]
+        if same:
+            k2 = jax.random.fold_in(k, 12345)
+            tr3, _w3, _rd3, _b3 = Regenerate(sel).edit(k2, s.tr, argdiffs)
+            still = [p for p in same if (lambda g: g is not None and np.asarray(g, dtype=np.float32).tobytes() == np.asarray(s.asg[p], dtype=np.float32).tobytes())(gfi.chm_get(tr3.get_choices(), p))]
+            if still:
+                raise Violation("regen:not-redrawn", f"selected continuous choices {still} kept exactly their old value in two regenerations with different keys", case)
     if "regen_weight" in checks:
         exp_w = run2.score() - s.run.score()
         atol = gfi.score_tol(run2, len(s.run.terms))
@@ -578,7 +588,8 @@ def step_index(s, op, checks, case):
             casg[p] = gfi.value_for(name, params, u)
         sub_chm = gfi.build_chm({p[1:]: v for p, v in casg.items()}, style="or")
         req = IndexRequest(jnp.array(idx), Update(sub_chm))
-        masg = dict(s.asg)
+        rs = resample_prefixes(s.node, casg, False)  # a constrained switch index resamples its branch
+        masg = {p: v for p, v in s.asg.items() if not (len(p) > 0 and p[0] == idx and any(_pat_match(pre, p) for pre in rs))}
         masg.update(casg)
         term = None
     else:
@@ -637,7 +648,7 @@ def step_assess_agree(s, case):
     try:
         sc, rv = s.gf.assess(tr.get_choices(), tr.get_args())
     except Exception as e:
-        if type(e).__name__ == "MissingAddress" and gfi.has_empty_site(s.node, s.run, include_branches=False):
+        if type(e).__name__ == "MissingAddress" and gfi.has_empty_site(s.node, s.run, include_branches=True):
             raise Violation("assess_empty_sample", f"assess raised MissingAddress{e.args} on the trace's own choices (a call site without active choices)", case)
         raise
     atol = gfi.score_tol(s.run)
